@@ -41,7 +41,7 @@ func init() {
 		Exhaustive: func(ctx core.Ctx) bool { return false },
 		Assumptions: []string{
 			"golang.org/x/net/html (Parse / ParseFragment / Render) is the trusted parser and reference serialiser",
-			"the same parse context is used for the source and for the formatted text: a document when the body (after front-matter) starts with a doctype or <html (any letter case), otherwise a fragment whose context element is tr/tbody/table/colgroup when the first tag is a table-scoped element, else body",
+			"the same parse context is used for the source and for the formatted text: a document when the body (after front-matter and any leading comments) starts with a doctype or <html (any letter case), otherwise a fragment whose context element is tr/tbody/table/colgroup when the first tag is a table-scoped element, else body",
 			"whitespace is Unicode whitespace (a no-break space counts as whitespace; its loss is counted, not judged)",
 			"mustache expressions are compared after collapsing whitespace runs (the statement allows whitespace collapsing in values; it does not say how exactly expressions are compared)",
 			"content of script/style is compared up to leading/trailing whitespace (the formatter's documented layout puts it on its own lines); content of <pre> is compared exactly; whitespace inside textarea/title is not judged",
@@ -328,6 +328,9 @@ var c19MetaBodies = []string{
 
 var c19MetaGaps = []string{"", "\n", "\n\n", "  \n"}
 
+// what stands between the front-matter and the doctype / body
+var c19MetaLeads = []string{"", "<!-- licence: MIT -->\n", "<!-- a -->\n\n<!-- b > c -->\n"}
+
 // ---------------------------------------------------------------- plan / gen
 
 func (p *c19) sizes(ctx core.Ctx) (nCorpus, nAttr, nText, nStruct, nMeta, nGen int) {
@@ -335,7 +338,7 @@ func (p *c19) sizes(ctx core.Ctx) (nCorpus, nAttr, nText, nStruct, nMeta, nGen i
 	nAttr = c19SeqCount(len(c19AttrTokens), ctx.Pick(3, 4)) * len(c19AttrQuotings)
 	nText = c19SeqCount(len(c19TextTokens), ctx.Pick(3, 4)) * len(c19TextHosts)
 	nStruct = len(c19StructParents) * (c19SeqCount(len(c19StructKids), ctx.Pick(2, 3)) - 1) * len(c19StructSeps) * 2
-	nMeta = len(c19Doctypes) * len(c19FrontMatters) * len(c19MetaBodies) * len(c19MetaGaps)
+	nMeta = len(c19Doctypes) * len(c19FrontMatters) * len(c19MetaBodies) * len(c19MetaGaps) * len(c19MetaLeads)
 	nGen = ctx.Pick(12000, 200000)
 	return
 }
@@ -379,6 +382,8 @@ func (p *c19) Gen(ctx core.Ctx, i int) any {
 		return c19Case{Part: "struct", Name: parent + ":" + strings.Join(kids, ""), Src: c19StructSrc(parent, kids, sep, edge)}
 	case i < nCorpus+nAttr+nText+nStruct+nMeta:
 		j := i - nCorpus - nAttr - nText - nStruct
+		lead := c19MetaLeads[j%len(c19MetaLeads)]
+		j /= len(c19MetaLeads)
 		gap := c19MetaGaps[j%len(c19MetaGaps)]
 		j /= len(c19MetaGaps)
 		body := c19MetaBodies[j%len(c19MetaBodies)]
@@ -394,6 +399,7 @@ func (p *c19) Gen(ctx core.Ctx, i int) any {
 		if fm != "" {
 			src += gap
 		}
+		src += lead
 		if dt != "" {
 			src += dt + "\n"
 		}
@@ -874,9 +880,26 @@ type c19Ctx struct {
 var c19LeadTag = regexp.MustCompile(`^<([a-zA-Z][a-zA-Z0-9-]*)(?:[\s/>]|$)`)
 var c19DoctypeRe = regexp.MustCompile(`(?i)^<!doctype[^>]*>`)
 
+// c19SkipLead returns what follows the comments (and the white space around
+// them) a text begins with: a document whose first line is a licence comment
+// is a document all the same.
+func c19SkipLead(t string) string {
+	for {
+		t = strings.TrimLeftFunc(t, unicode.IsSpace)
+		if !strings.HasPrefix(t, "<!--") {
+			return t
+		}
+		end := strings.Index(t[4:], "-->")
+		if end < 0 {
+			return t
+		}
+		t = t[4+end+3:]
+	}
+}
+
 func c19Context(body string) c19Ctx {
 	t := strings.TrimSpace(body)
-	low := strings.ToLower(t)
+	low := strings.ToLower(c19SkipLead(t))
 	if strings.HasPrefix(low, "<!doctype") || strings.HasPrefix(low, "<html") {
 		return c19Ctx{doc: true, name: "document"}
 	}
@@ -955,19 +978,23 @@ func (d *c19Diff) String() string {
 	return fmt.Sprintf("%s in <%s> at %s: expected %s, got %s", d.Kind, d.Where, d.Path, d.Exp, d.Got)
 }
 
+// c19IsWS: HTML white space is ASCII white space; a no-break space (&nbsp;) is a
+// character of the text.
+func c19IsWS(r rune) bool { return r == ' ' || r == '\t' || r == '\n' || r == '\r' || r == '\f' }
+
 func c19StripWS(s string) string {
-	if strings.IndexFunc(s, unicode.IsSpace) < 0 {
+	if strings.IndexFunc(s, c19IsWS) < 0 {
 		return s
 	}
 	return strings.Map(func(r rune) rune {
-		if unicode.IsSpace(r) {
+		if c19IsWS(r) {
 			return -1
 		}
 		return r
 	}, s)
 }
 
-func c19Collapse(s string) string { return strings.Join(strings.Fields(s), " ") }
+func c19Collapse(s string) string { return strings.Join(strings.FieldsFunc(s, c19IsWS), " ") }
 
 func c19ModeFor(parentMode string, e *c19N) string {
 	switch e.Name {
@@ -1461,7 +1488,7 @@ func (p *c19) Exec(ctx core.Ctx, cc any) core.Obs {
 	}
 
 	// ---- doctype bytes
-	tb := strings.TrimLeftFunc(body, unicode.IsSpace)
+	tb := c19SkipLead(body)
 	doctypeJudged, doctypeLost := false, ""
 	if dt := c19DoctypeRe.FindString(tb); dt != "" {
 		doctypeJudged = true
@@ -1473,7 +1500,10 @@ func (p *c19) Exec(ctx core.Ctx, cc any) core.Obs {
 			kind += "-long"
 		}
 		o.Cell("has/doctype/" + kind)
-		if !strings.HasPrefix(strings.TrimLeftFunc(outBody, unicode.IsSpace), dt) {
+		if len(tb) != len(strings.TrimLeftFunc(body, unicode.IsSpace)) {
+			kind += "-after-comment"
+		}
+		if !strings.HasPrefix(c19SkipLead(outBody), dt) {
 			doctypeLost = kind
 			o.Fail(c, "doctype/not-kept/"+kind, "doctype not kept byte for byte at the start of the formatted body\nexpected: %q\nformatted body starts: %q\nsource: %q", dt, clip(outBody, 120), clip(c.Src, 400))
 		} else {
